@@ -119,6 +119,13 @@ CHECKS['C05'] = {
     'technique': 'TLC invariant (grid consistency) on the exact kernel + TLC-validated observation events with the admissibility table in TLA+',
 }
 
+CHECKS['C15'] = {
+    'text': 'Arma.tla (on Correlation.tla, LevFn.tla, LinAlg.tla): ma() as two chained exact Yule-Walker fits and, for P=Q, the AR part of arma_estimate as the exact least-squares solution of the modified Yule-Walker equations over unbiased lags; TLC checks Q coefficients, invertibility (second-fit reflection coefficients < 1) and positive variance; states are replayed into ma, pma (.ma/.rho) and arma_estimate (AR values and count). ObsC15.tla holds the documented domains and validates on float data (N 16..256): MA/ARMA coefficient counts on both sides of the P<=4 solver switch, MA zeros inside the unit circle, positive finite variance, the modified Yule-Walker normal equations for P=Q, and for every AR/MA/ARMA class: PSD positive, proportional to |B|^2/|A|^2 of the exposed coefficients with constant rho/sampling when rho is exposed.',
+    'design_ref': 'DESIGN.md 3/C15',
+    'note': 'Exact universe tiny (N<=5/6, M<=3, P=Q<=2, lag<=4); the P>4 branch and the MA stage of arma_estimate are decided from observation events only; |B|^2/|A|^2 is evaluated by the harness with numpy FFT.',
+    'technique': 'TLA+ exact kernel composition + TLC enumeration + state replay; TLC-validated observation events with the domain table in TLA+',
+}
+
 NOT_APPLICABLE = {
     'C18': 'Slepian tapers: irrational eigenproblem solved in C; no exact finite model exists and quantised re-verification would make Python the oracle (a different technique). DESIGN.md section 4.',
 }
